@@ -2,6 +2,7 @@
   S2Proofs.C05.Levels — level discipline: the search, adjustCellLevels, Normalize, Denormalize.
 -/
 import S2Proofs.C05.Loop
+import S2Proofs.CU.Normalize
 open S2 S2.CellID S2.CellUnion S2.Coverer
 namespace S2Proofs.C05
 
